@@ -6,7 +6,9 @@ Parts (one family of shards each):
             FileSet(info_cache=) / load_cache into another cache
  crash      every crash point of save_cache for (previous document, new
             content) pairs, with every directory content the crash can leave
- corrupt    every byte truncation and an alphabet of malformed documents
+ unserialisable  saves that json.dump itself interrupts
+ corrupt    every byte truncation and an alphabet of malformed, well-formed
+            and lenient documents
  history    breadth-first search over find / save / crash / exit / kill /
             load_cache / add / delete histories of one cache file
  reset      time_coverage changes inside one process
@@ -23,6 +25,7 @@ import warnings
 from mc import driver
 driver.setup_env()
 
+import numpy                                            # noqa: E402
 from mc import fault                                    # noqa: E402
 import typhon.files.fileset as tff                      # noqa: E402
 from typhon.files import FileSet                        # noqa: E402
@@ -32,24 +35,35 @@ from checks import c15_world as W                       # noqa: E402
 PROP = "C15"
 LEVEL = "fault_enumeration"
 RULE = ("roundtrip: contents = empty, every 1-entry cache (21 spans t0<=t1 "
-        "over the 6-instant lattice datetime.min .. datetime.max x attrs "
-        "{}, {'sat':'A'} x 2 path styles), 3-entry caches (quick: 42 "
-        "rotations; thorough: all 11480 triples of the 42 span x attrs "
-        "entries) x {restart, load_cache into a cache holding a foreign and "
-        "a stale entry}. crash: (previous document, new content) pairs x "
+        "over the 6-instant lattice datetime.min .. datetime.max x 5 "
+        "attribute sets: {}, {'sat':'A'}, an int, float + null + list of "
+        "strings, a non-ASCII string x 2 path styles), 3-entry caches "
+        "(quick: 42 rotations; thorough: all 11480 triples of the 42 span x "
+        "{}, {'sat':'A'} entries) x {restart, load_cache into a cache "
+        "holding a foreign and a stale entry}. crash: (previous document, "
+        "new content) pairs x "
         "every point recorded at the seams of typhon.files.fileset (open for "
         "writing before/after, after each write(), before close, before/"
         "after shutil.move / os.rename / os.replace) x {process death, "
         "OSError}; one evaluation = one directory content the crash can "
         "leave (after unwinding; at the instant of death; every byte prefix "
-        "of the written file). corrupt: truncation of two 3-entry documents "
-        "at every byte, 119 malformed documents (25 kinds of broken entry "
-        "alone and at each position among valid ones, wrong JSON types, "
-        "syntax, non-UTF8), 5 well-formed ones, a directory, an unreadable "
-        "and a missing file x {restart, load_cache into a non-empty cache}. "
-        "history: BFS to depth 3 (quick) / 4 (thorough) over {find, save, "
-        "crash at each point, exit (handlers fire), kill, load_cache, add, "
-        "delete} from 6 fileset configurations x populations {0, 1, 3}; "
+        "of the written file). unserialisable: a 3-entry cache whose entry "
+        "0 / 1 / 2 has an attribute value json cannot write (datetime, "
+        "numpy.int64, frozenset) is saved over {no, the empty, a 3-entry} "
+        "document. corrupt: truncation of two 3-entry documents at every "
+        "byte, 151 malformed documents (33 kinds of broken entry - missing "
+        "keys, wrong JSON types of the entry, of path, times and attr, "
+        "unreadable time strings - alone and at each position among valid "
+        "ones, wrong JSON types of the document, syntax, non-UTF8), 5 "
+        "well-formed ones, 4 lenient ones (1-digit fraction, unpadded month "
+        "and day, end before start, one path twice), a directory, an "
+        "unreadable and a missing file x {restart, load_cache into a "
+        "non-empty cache}. history: BFS to depth 3 (quick) / 4 (thorough) "
+        "over {find, save, crash at each point, exit (handlers fire), kill, "
+        "load_cache, add, delete} from 8 fileset configurations (6 with "
+        "info_via='filename'; 2 whose times and int / str attributes come "
+        "from a file handler, info_via='handler' and 'both') x populations "
+        "{0, 1, 3} (handler configurations in the quick tier: 3 only); "
         "states deduplicated by (cache file hash, backup file absent / empty "
         "/ partial / complete, cached names, files, registered handlers); "
         "one evaluation = one executed transition. reset: all sequences of "
@@ -57,8 +71,9 @@ RULE = ("roundtrip: contents = empty, every 1-entry cache (21 spans t0<=t1 "
         "coverages} x 2 configurations. process (thorough): 2 "
         "configurations x 8 death points of a real interpreter's exit "
         "handler. Non-trivial = the content is not empty (roundtrip); the "
-        "injected point fired (crash); the file is not a well-formed "
-        "document (corrupt); the operation is not add/delete and a "
+        "injected point fired (crash); save_cache raised (unserialisable); "
+        "the file is malformed or lenient (corrupt); the operation is not "
+        "add/delete and a "
         "non-empty cache or saved document exists after it (history); a "
         "coverage was assigned (reset); always (process). Cases are "
         "distinct by construction.")
@@ -79,8 +94,22 @@ ASSUMPTIONS = [
     "backup file or the cached values)",
     "find() answers are compared with those of a cache-less FileSet of the "
     "same tree (what find must answer is C01's subject)",
-    "restarts use the same path template and time_coverage as the process "
-    "that saved the cache",
+    "restarts use the same path template, time_coverage, info_via and "
+    "handler as the process that saved the cache",
+    "restored information = path, times and attr of a FileInfo (its "
+    "file_system is not written to the file and not compared)",
+    "attribute values are what JSON can hold (str, int, float, null, list); "
+    "a tuple would come back as a list and is outside the round trip; for "
+    "values json cannot write only the survival of the last completed save "
+    "is demanded, not whether save_cache raises",
+    "lenient documents say unambiguously what they mean in a spelling "
+    "save_cache never uses; the statement does not class them: accepted are "
+    "rejecting the whole file with a warning and restoring exactly what is "
+    "written (for a path listed twice: its first or its last entry)",
+    "'attr': null is not in the corruption alphabet (FileInfo documents "
+    "attr=None as 'no attributes')",
+    "whether a restored entry spares the call of the file handler is not "
+    "demanded (statement: same answers with or without the cache)",
 ]
 
 EXCS = {"Abort": fault.Abort, "Fault": fault.Fault}
@@ -100,6 +129,7 @@ def shards(tier, seed):
     more = M.MORE if thorough else ()
     out += [("crash", p, n) for p in M.QUICK_PREVIOUS + more
             for n in M.QUICK_NEW + more]
+    out += [("unserialisable", p) for p in (None, "empty", "three-modern")]
     out += [("corrupt", "documents", mode) for mode in ("restart", "load")]
     out += [("corrupt", "truncated", base, mode)
             for base in ("typhon:three-modern", "reference:three-mixed")
@@ -107,7 +137,9 @@ def shards(tier, seed):
     depth = 4 if thorough else 3
     for config, (_, pool) in M.CONFIGS.items():
         for population in M.POPULATIONS:
-            if population <= len(pool):
+            # quick tier: the handler configurations start from 3 files only
+            if population <= len(pool) and (
+                    thorough or config not in M.HANDLED or population == 3):
                 out.append(("history", config, population, depth))
     out.append(("reset", depth + 1))
     if thorough:
@@ -250,6 +282,56 @@ def replay_crash(case, root):
 
 
 # --------------------------------------------------------------------------
+# a save that fails by itself
+# --------------------------------------------------------------------------
+
+# attribute values a handler may supply and json cannot write
+UNSERIALISABLE = {"datetime": M.LATTICE[4], "numpy.int64": numpy.int64(7),
+                  "set": frozenset("a")}
+
+
+def unserialisable_save(world, previous, position, kind):
+    """Process 1 saved `previous` (None: never); process 2 holds three entries
+    of which number `position` has an attribute json.dump stops at. Whether
+    its save raises is not judged; if it does, the last completed save must
+    have survived. -> (violations, the save raised)"""
+    contents = M.named(world.base)
+    world.forget()
+    if previous is not None:
+        world.boot()
+        world.inject(contents[previous])
+        world.save_completely()
+    bad = world.boot()
+    if world.fs is None:
+        return bad, False
+    world.inject(contents["three-mixed"])
+    info = list(world.fs.info_cache.values())[position]
+    info.attr["extra"] = UNSERIALISABLE[kind]
+    old = (world.bytes, world.entries)
+    held = W.snapshot(world.fs)
+    raised = world.save(fault.Plan())[1]
+    disk = world.disk()
+    if raised is None:
+        return bad + world.commit(disk.get(W.CACHE), held), False
+    return bad + world.audit(disk, *old, "failed-save"), True
+
+
+def run_unserialisable(shard, res, root):
+    world = W.World(root)
+    case = None
+    for position in range(3):
+        for kind in UNSERIALISABLE:
+            case = dict(part="unserialisable", previous=shard[1],
+                        position=position, kind=kind)
+            bad, raised = unserialisable_save(world, shard[1], position,
+                                              kind)
+            report(res, case, bad, nontrivial=raised,
+                   again=lambda: unserialisable_save(
+                       world, shard[1], position, kind)[0])
+    return case
+
+
+# --------------------------------------------------------------------------
 # damaged cache files
 # --------------------------------------------------------------------------
 
@@ -269,7 +351,8 @@ def base_document(world, base):
 
 
 def corrupt_cases(world, shard):
-    """-> [(label, installer of the damage, entries to restore or None)]"""
+    """-> [(label, installer of the damage, entries to restore | None =
+    malformed | {"any_of": ...} = M.lenient_documents)]"""
     def put(data):
         return lambda: world.put(data)
     if shard[1] == "truncated":
@@ -321,8 +404,16 @@ def damaged(world, label, install, want, mode):
                  repr(exc)[:300], "")], 0
     got = W.snapshot(world.fs)
     registered = len(W.REGISTRY.handlers)
-    expected = dict(held)
-    expected.update({e[0]: e for e in want or ()})
+
+    def after(content):
+        return dict(held, **{e[0]: e for e in content})
+    if isinstance(want, dict):
+        allowed = [after(content) for content in want["any_of"]]
+        if got in allowed or got == held and warned:
+            return [], registered
+        return [("lenient/neither-rejected-nor-read-as-written[%s]" % group,
+                 allowed, got, "; ".join(warned)[:300])], registered
+    expected = after(want or ())
     if want is not None:
         if got != expected:
             return [("wellformed/not-restored[%s]" % group, expected, got,
@@ -352,9 +443,11 @@ def run_corrupt(shard, res, root):
         def once():
             return damaged(world, label, install, want, mode)
         bad, registered = once()
+        lenient = isinstance(want, dict)
         res.count("exit_handlers_after_%s_load" % (
-            "failed" if want is None else "successful"), registered)
-        report(res, case, bad, nontrivial=want is None,
+            "failed" if want is None else "lenient" if lenient
+            else "successful"), registered)
+        report(res, case, bad, nontrivial=want is None or lenient,
                again=lambda: once()[0])
     return case
 
@@ -617,7 +710,8 @@ def report(res, case, bad, nontrivial, again=None):
         res.violation(key, case, expected, observed, msg)
 
 
-RUNNERS = dict(roundtrip=run_roundtrip, crash=run_crash, corrupt=run_corrupt,
+RUNNERS = dict(roundtrip=run_roundtrip, crash=run_crash,
+               unserialisable=run_unserialisable, corrupt=run_corrupt,
                history=run_history, reset=run_reset, process=run_process)
 
 
@@ -640,6 +734,9 @@ def replay(case):
         bad = roundtrip(world, content, case["mode"])
     elif part == "crash":
         bad = replay_crash(case, root)
+    elif part == "unserialisable":
+        bad = unserialisable_save(W.World(root), case["previous"],
+                                  case["position"], case["kind"])[0]
     elif part == "corrupt":
         world = W.World(root)
         label, install, want = next(
